@@ -7,7 +7,7 @@ import time
 from . import sut, wire
 
 BEHAVIOURS = ["always", "never", "stop2", "late-within", "late-beyond", "wrong-token", "unsolicited",
-              "chatty-silent", "never", "always"]
+              "chatty-silent", "late-long", "never", "always"]
 
 
 class Lag(threading.Thread):
@@ -64,6 +64,9 @@ class Peer:
                     answer = (now, tok)
             elif b == "late-within":
                 answer = (now + min(self.Q * 0.5, 0.6), tok)
+            elif b == "late-long":
+                # later than ping_timeout but still inside pong_timeout (when pong_timeout is the larger one)
+                answer = (now + ((self.P + self.Q) / 2.0 if self.Q > self.P else min(self.Q * 0.5, 0.6)), tok)
             elif b == "late-beyond":
                 answer = (now + self.Q + 1.2, tok)
             if answer is None or b == "late-beyond":
@@ -132,7 +135,7 @@ def run_config(args):
                            first_unanswered=None if p.first_unanswered is None else round(p.first_unanswered - p.t_reg, 2))
                 out["peers"].append(rec)
                 tag = "P%d-Q%d" % (P, Q)
-                responsive = p.b in ("always", "late-within", "wrong-token", "unsolicited")
+                responsive = p.b in ("always", "late-within", "late-long", "wrong-token", "unsolicited")
                 # R1 own PINGs echoed
                 stale = [t for t in p.own_tokens.values() if now - t > 3.0 and (p.closed_at is None or t < p.closed_at - 3.0)]
                 if stale:
